@@ -2063,6 +2063,23 @@ def functions():
         return "Definition g_discover_local_with_meta (files : list (list Z)) (stat : list Z -> option fmeta) : metamap :=\n  %s." % text
     out.append(("discover_local_with_meta", "src/bin/copia/meta.rs discover_local_with_meta", None, t_discover_meta))
 
+    def t_set_local_mtime():
+        src = read("src/bin/copia/meta.rs")
+        params, ret, body = R.find_fn(src, "set_local_mtime", None)
+        if [n for n, _ in params] != ["path", "secs"]:
+            raise Unsupported("signature of set_local_mtime is %s" % params)
+        # `SystemTime + Duration` is std's checked addition (a panic on overflow); u64::try_from(i64) <= i64::MAX seconds fits the
+        # i64 seconds of a timespec, so the sum is the exact one
+        spec = dict(opt_try_calls=(".open",), try_none="None", try_transparent=True, paths={"Ok": "Some"}, exact_arith=True,
+                    calls={"Duration::from_secs": ("({0} * 1000000000)", "u128"), "u64::try_from": ("(if 0 <=? {0} then Some {0} else None)", "Option<u64>"),
+                           ".max": ("Z.max {0} {1}", "i64"), "std::fs::File::options": ("tt", "OpenOptions"), ".write": ("{0} (* write {1} *)", "OpenOptions"),
+                           ".open": ("open_for_write (* {0} {1} *)", "Option<File>"), ".set_modified": ("(match {0} with Some _ => set_modified {1} | None => None end)", "Option<i128>")},
+                    consts={"UNIX_EPOCH": ("0", "u128")}, param_types={"secs": "i64"})
+        fn = Fn(spec)
+        text = fn.block(body, {"path": "Path", "secs": "i64"}, Ctx(val=(lambda x: x), ret=(lambda x: x), fall=None))
+        return "Definition g_set_local_mtime (open_for_write : option unit) (set_modified : Z -> option Z) (secs : Z) : option Z :=\n  %s." % text
+    out.append(("set_local_mtime", "src/bin/copia/meta.rs set_local_mtime", None, t_set_local_mtime))
+
     def t_fingerprint_path():
         src = read("src/bin/copia/meta.rs")
         params, ret, body = R.find_fn(src, "fingerprint_path", None)
@@ -3095,7 +3112,7 @@ GROUPS = {
     "OneWaySys": ("Model.OneWaySys", "onewaysys", ["tmp_path", "deliver_local", "deliver_pull"]),
     "OneWayRun": ("Model.Glob Model.Plan Model.OneWay", "onewayrun", ["run_local"]),
     "Fingerprint": ("Model.Reconcile", "fingerprintg", ["fingerprint_path", "discover_local_fingerprints"]),
-    "LocalScan": ("Model.Glob Model.Plan Model.OneWay", "localscan", ["mtime_secs", "discover_local_with_meta"]),
+    "LocalScan": ("Model.Glob Model.Plan Model.OneWay", "localscan", ["mtime_secs", "discover_local_with_meta", "set_local_mtime"]),
     "ListingParse": ("Model.Glob Model.Plan Model.Listing", "listingparse", ["parse_listing"]),
     "OneWayPrint": ("Model.Glob Model.Plan Model.OneWay", "onewayprint", ["print_plan", "report"]),
     "PushDelete": ("Model.Glob Model.Plan Model.Listing Model.ShellQuote", "plainz", ["push_delete_request"]),
